@@ -623,8 +623,11 @@ def s9_convert_row(ctx, ck):
         ok_from = False
         if base == fmods and len(keypush) == 1 and keypush[0][0] < pushes[0][0]:
             kk = mir.strip(keypush[0][1].b[1])
-            ok_from = isinstance(kk, tuple) and kk[0] == "index" and kk[2] == ci and isinstance(kk[1], tuple) and kk[1][0] == "okval" and "ok_or" in str(kk[1][1][1]) \
-                and any(isinstance(s_, tuple) and s_ == T("field", T("field", row, "from"), "row") for s_ in subterms(kk[1]))
+            ok_from = isinstance(kk, tuple) and kk[0] == "index" and kk[2] == ci and isinstance(kk[1], tuple) and kk[1][0] == "okval" and "ok_or" in str(kk[1][1][1])
+            if ok_from:
+                g = kk[1][1][2][0]   # the Option handed to ok_or: US_KEYBOARD_LAYOUT.get(&row_mapping.from.row)
+                ok_from = isinstance(g, tuple) and g[0] == "call" and method_name(g[1]) == "get" and len(g[2]) == 2 \
+                    and mir.strip(g[2][1]) == T("field", T("field", row, "from"), "row") and "US_KEYBOARD_LAYOUT" in show(g[2][0])
         ck.ob("C13-S9", fn, "trigger==chosen-alias-keys-and-plain-modifiers++[key-at-the-letter's-position-in-the-row-named-by-the-mapping]", ok_from)
         ck.ob("C13-S9", fn, "to==that-convert_row_to-result", mir.strip(mp["to"]) == T("field", T("variant", res0, "Some"), "0"))
         ab = mp["absorbing"]
